@@ -95,6 +95,41 @@ func init() {
 		return &nom.AccountBlock{BlockType: nom.BlockTypeUserSend, Address: ops.Users[o.A].Address, ToAddress: types.PillarContract,
 			TokenStandard: types.ZnnTokenStandard, Amount: big.NewInt(o.V * 100000000), Data: definition.ABIPillars.PackMethodPanic(definition.DepositQsrMethodName)}
 	}
+	// CRalter: the receive block for the front of a contract's inbox arrives from the network before the node made it itself,
+	// with the recipient of its first descendant send rewritten (every hash field as the honest block has it)
+	ops.Extra["CRalter"] = func(n *vnode.Node, o ops.Op) (out string) {
+		defer func() {
+			if r := recover(); r != nil {
+				out = "panic"
+			}
+		}()
+		for _, ca := range []types.Address{types.SentinelContract, types.StakeContract, types.PlasmaContract, types.PillarContract} {
+			acc := n.Chain.GetFrontierAccountStore(ca)
+			hd := acc.SequencerFront(n.Chain.GetFrontierMomentumStore().GetAccountMailbox(ca))
+			if hd == nil {
+				continue
+			}
+			send, err := n.Chain.GetFrontierMomentumStore().GetAccountBlockByHash(hd.Hash)
+			if err != nil || send == nil {
+				continue
+			}
+			ex, err := n.Sup.GenerateAutoReceive(send)
+			if err != nil || ex == nil || len(ex.Transaction.Block.DescendantBlocks) == 0 {
+				continue
+			}
+			b := vnode.CloneBlock(ex.Transaction.Block)
+			stranger := ops.Users[8].Address
+			if b.DescendantBlocks[0].ToAddress == stranger {
+				stranger = ops.Users[9].Address
+			}
+			b.DescendantBlocks[0].ToAddress = stranger
+			if err, pan := n.AddAccountBlocks([]*nom.AccountBlock{b}); err != nil || pan != nil {
+				return "refused"
+			}
+			return "ACCEPTED"
+		}
+		return "nothing-to-alter"
+	}
 	// pillar collateral: A = caller, B = index into pillarNames
 	ops.Calls["pillar-register"] = func(o ops.Op) *nom.AccountBlock {
 		u := ops.Users[o.A].Address
@@ -250,7 +285,18 @@ func families(thorough bool) []family {
 	pillar.bases = append(pillar.bases, hx.Base{Name: "pillar-qsr/deposited", Prefix: []ops.Op{
 		{K: "Call", S: "pillar-deposit-qsr", A: 1, V: 10}, M, M,
 	}})
-	return append([]family{stake, plasma, sent, pillar, coll, htlcFamily()}, bridgeFamilies()...)
+	// relayed contract receives: a send is confirmed by a momentum whose producer did not get to the inboxes (Mo), then the
+	// contract's receive block reaches the node from the network with the recipient of its refund / withdrawal rewritten
+	// (all hash fields kept): "released only to the entitled party" must not depend on who relayed the block
+	relay := family{name: "relayed-receive", alpha: []ops.Op{
+		M, {K: "Mo"}, {K: "CRalter"},
+		{K: "Call", S: "sentinel-register", A: 5},     // without the deposit: refund
+		{K: "Call", S: "sentinel-withdraw-qsr", A: 5}, // withdrawal of a deposit
+	}, bases: []hx.Base{
+		{Name: "relayed-receive/refund-pending", Prefix: []ops.Op{{K: "Call", S: "sentinel-register", A: 5}, {K: "Mo"}}},
+		{Name: "relayed-receive/withdrawal-pending", Prefix: []ops.Op{{K: "Call", S: "sentinel-deposit-qsr", A: 5, V: 10}, M, M, {K: "Call", S: "sentinel-withdraw-qsr", A: 5}, {K: "Mo"}}},
+	}}
+	return append([]family{stake, plasma, sent, pillar, coll, relay, htlcFamily()}, bridgeFamilies()...)
 }
 
 func knownAddrs() []types.Address {
